@@ -221,6 +221,75 @@ def ok_size(o):
     return max(abs(c) for p in (o[1] if o[0] == 'G' else [q for f in o[1] for q in f]) for c in p) <= 12
 
 
+def touching_catalogue(n):
+    """fixed family (its own constant seed, whatever VERIF_SEED is): a polygon in a STRICTLY supporting plane of a lattice / half-lattice
+    hull body through one vertex (the polygon contains the vertex in its interior or on an edge) or along one edge — oblique poses, so
+    that every incident edge meets the polygon plane in a computed point; exact answer: that Point / that edge as a Segment"""
+    G = Gen(random.Random(20261001))
+    R = G.R
+    out = []
+    while len(out) < n:
+        fs = G.hull_body(den=R.choice([1, 2]))
+        vs = E.vertices_of(('B', fs))
+        cen = E.mean(vs)
+        v = R.choice(vs)
+        inc = []
+        for f in fs:
+            if v in f:
+                nf = E.polygon_normal(f)
+                if dot(nf, sub(cen, f[0])) > 0:
+                    nf = neg(nf)
+                g = max(abs(x) for x in nf)
+                inc.append(mul(1 / g, nf))
+        edge = len(out) % 3 == 2
+        if edge:
+            f0 = next(f for f in fs if v in f)
+            w_ = f0[(f0.index(v) + 1) % len(f0)]
+            two = [f for f in fs if v in f and w_ in f]
+            if len(two) != 2:
+                continue
+            inc = []
+            for f in two:
+                nf = E.polygon_normal(f)
+                if dot(nf, sub(cen, f[0])) > 0:
+                    nf = neg(nf)
+                inc.append(mul(1 / max(abs(x) for x in nf), nf))
+        nrm = (F(0), F(0), F(0))
+        for x in inc:
+            nrm = add(nrm, mul(F(R.randint(1, 3)), x))
+        if E.is0(nrm):
+            continue
+        # the plane nrm . (x - v) = 0 must meet the body in the vertex (edge) only
+        on = [p for p in vs if dot(nrm, sub(p, v)) == 0]
+        if any(dot(nrm, sub(p, v)) > 0 for p in vs) or len(on) != (2 if edge else 1):
+            continue
+        ax = min(range(3), key=lambda t: abs(nrm[t]))
+        e_ = tuple(F(1) if t == ax else F(0) for t in range(3))
+        u = E.cross(nrm, e_)
+        w = E.cross(nrm, u)
+
+        def dy(x):        # scale by a power of two to length <= 4
+            m = max(abs(c) for c in x)
+            k = F(1)
+            while m * k > 4:
+                k /= 2
+            return mul(k, x)
+        u, w = dy(u), dy(w)
+        a, b = F(R.choice([1, 2, 3]), 2), F(R.choice([0, 1, 2]), 4)
+        c0 = add(v, add(mul(b, u), mul(R.choice([F(0), F(1, 4)]), w)))          # polygon centre: the vertex, or next to it
+        quad = [add(c0, mul(a, u)), add(c0, mul(a, w)), sub(c0, mul(a, u)), sub(c0, mul(a, w))]
+        K, Gq = G.shuffled_body(fs), G.shuffled_polygon(quad)
+        if not (ok_size(K) and ok_size(Gq)) or any(c.denominator > 64 for p in quad for c in p):
+            continue
+        out.append((Gq, K, 'touching-oblique') if len(out) % 2 else (K, Gq, 'touching-oblique'))
+    return out
+
+
+def work_touch(args):
+    from .. import impl
+    return [(A, B, cls, interlib.observe(impl, A, B)) for A, B, cls in args]
+
+
 def work(args):
     seed, n, idx = args
     from .. import impl
@@ -238,11 +307,15 @@ def work(args):
 def run(ctx, scale=1):
     ctx.extra['rule'] = ('polygon/polyhedron pairs in both orders over 9 templates: ' + ', '.join(TEMPLATES) +
                          ' (bodies = lattice hulls or affine images of box/prism/pyramid/octahedron/tetrahedron, vertex and face order shuffled); '
+                         'plus a fixed catalogue (constant seed) of polygons in a strictly supporting plane through one vertex / along one edge of a body in oblique pose; '
                          'non-trivial = non-empty exact intersection; generic irrational poses are NOT generated (exact model takes rational input only)')
     ctx.extra['unproved'] = ['K4: completeness of the polyhedron × polyhedron assembly (soundness proved; polygon × polygon and polygon × polyhedron proved exact) — decided per run against exact vertex enumeration']
     total = ctx.n(480, 12000) * scale
     cases = []
     for part in core.pmap(work, core.chunks(ctx, total, per=15)):
+        cases.extend(part)
+    tc = touching_catalogue(ctx.n(320, 2400))
+    for part in core.pmap(work_touch, [tc[i:i + 40] for i in range(0, len(tc), 40)]):
         cases.extend(part)
     outs = core.model_lines(['inter %s %s' % (tok(A), tok(B)) for A, B, _, _ in cases])
     for (A, B, cls, obs), ml in zip(cases, outs):
